@@ -378,11 +378,19 @@ protected:
     auto Q=NLME().Hessian();
     if (Q.num_nz_) {
       ++header_.num_nl_objs;                // STATS
-      for (auto i=Q.num_nz_; i--; ) {
-        assert(i<nlv_obj_.size());
-        nlv_obj_[Q.index_[i]] = true;
-        ++header_.num_nl_vars_in_objs;      // STATS
+      // Both variables of every product x_i * x_j are nonlinear
+      auto pos_end = Q.num_nz_;
+      for (auto i=NLME().NumCols(); i--; ) {
+        for (auto pos=Q.start_[i]; pos!=pos_end; ++pos) {
+          assert((size_t)Q.index_[pos]<nlv_obj_.size());
+          nlv_obj_[i] = true;
+          nlv_obj_[Q.index_[pos]] = true;
+        }
+        pos_end = Q.start_[i];
       }
+      // Count every nonlinear variable once
+      header_.num_nl_vars_in_objs = (int)std::count(
+            nlv_obj_.begin(), nlv_obj_.end(), true);     // STATS
     }
   }
 
